@@ -84,6 +84,11 @@ func (s *Shim) BeginStep(op Op) {
 	for _, k := range s.Keys {
 		k.EchoExpected, k.Dying = false, false
 	}
+	s.noteOp(op)
+}
+
+// noteOp records what the shim sends with one request.
+func (s *Shim) noteOp(op Op) {
 	switch op.Kind {
 	case OpAddNode:
 		if _, ok := s.Nodes[op.Node]; !ok {
